@@ -7,9 +7,10 @@ function.  The statements below are the property's "for every run length" on tha
 -/
 import IsobarV.Props.C01
 import IsobarV.Sched.FloatTime
+import IsobarV.Sched.FloatSum
 
 namespace IsobarV.C01
-open IsobarV.FloatTime
+open IsobarV.FloatTime IsobarV.FloatSum
 
 /-- **For every run length the tick clock is one rounding away from the ideal time** (and exactly the
     correctly rounded quotient): nothing accumulates from tick to tick.  `fl` is any rounding with relative
@@ -33,6 +34,35 @@ theorem tick_time_within_guard (fl : ℚ → ℚ) (hfl : ∀ x, |fl x - x| ≤ (
   have h3 : (1 / 2 ^ 53 : ℚ) * ((k : ℚ) / tpb) ≤ (1 / 2 ^ 53) * 45000000 :=
     mul_le_mul_of_nonneg_left hbeats (by positivity)
   have h4 : (1 / 2 ^ 53 : ℚ) * 45000000 < 5 / 1000000000 := by norm_num
+  linarith
+
+/-- **For every number of events the accumulated event time is within one rounding of the total (plus the
+    roundings of the corrected durations) of the exact sum of the durations** — compensated summation,
+    `Sched/FloatSum.lean`; hypotheses: the standard rounding model and the exactness of the two
+    error-recovering subtractions along the run (Fast2Sum; checked on the real floats by the harness). -/
+theorem event_time_never_drifts (fl : ℚ → ℚ) (ε M : ℚ) (hε : 0 ≤ ε) (hM0 : 0 ≤ M) (hfl : ∀ x, |fl x - x| ≤ ε * |x|)
+    (s0 : ℚ) (ds : List ℚ) (hE : Exact fl ⟨s0, 0⟩ ds) (hG : Mag fl M ⟨s0, 0⟩ ds) :
+    |(krun fl ⟨s0, 0⟩ ds).s - (s0 + ds.sum)| ≤ ε * M + ε * ((ds.map (fun d => |d|)).sum + ds.length * (ε * M)) :=
+  kahan_error fl ε M hε hM0 hfl s0 ds hE hG
+
+/-- With doubles the event times stay inside the 5·10⁻⁹ tolerance of the rounded comparisons for up to
+    10¹² events within 2·10⁷ beats (115 days at 120 bpm). -/
+theorem event_time_within_guard (fl : ℚ → ℚ) (hfl : ∀ x, |fl x - x| ≤ (1 / 2 ^ 53) * |x|)
+    (s0 : ℚ) (ds : List ℚ) (M : ℚ) (hM0 : 0 ≤ M) (hM : M ≤ 20000000)
+    (hE : Exact fl ⟨s0, 0⟩ ds) (hG : Mag fl M ⟨s0, 0⟩ ds)
+    (hD : (ds.map (fun d => |d|)).sum ≤ M) (hk : (ds.length : ℚ) ≤ 1000000000000) :
+    |(krun fl ⟨s0, 0⟩ ds).s - (s0 + ds.sum)| < 5 / 1000000000 := by
+  have h := kahan_error fl (1 / 2 ^ 53) M (by positivity) hM0 hfl s0 ds hE hG
+  have hεM : (1 / 2 ^ 53 : ℚ) * M ≤ (1 / 2 ^ 53) * 20000000 := mul_le_mul_of_nonneg_left hM (by positivity)
+  have hkM : (ds.length : ℚ) * ((1 / 2 ^ 53) * M) ≤ 1000000000000 * ((1 / 2 ^ 53) * 20000000) := by
+    apply mul_le_mul hk hεM (by positivity) (by positivity)
+  have hsum : (ds.map (fun d => |d|)).sum + (ds.length : ℚ) * ((1 / 2 ^ 53) * M) ≤
+      20000000 + 1000000000000 * ((1 / 2 ^ 53) * 20000000) := by linarith
+  have h2 : (1 / 2 ^ 53 : ℚ) * ((ds.map (fun d => |d|)).sum + (ds.length : ℚ) * ((1 / 2 ^ 53) * M)) ≤
+      (1 / 2 ^ 53) * (20000000 + 1000000000000 * ((1 / 2 ^ 53) * 20000000)) :=
+    mul_le_mul_of_nonneg_left hsum (by positivity)
+  have h3 : (1 / 2 ^ 53 : ℚ) * 20000000 + (1 / 2 ^ 53) * (20000000 + 1000000000000 * ((1 / 2 ^ 53) * 20000000)) < 5 / 1000000000 := by
+    norm_num
   linarith
 
 end IsobarV.C01
